@@ -207,7 +207,7 @@ def gen_script(rng):
             "t_max": "default" if rng.random() < 0.4 else gen_q(rng, DIM["time"], us),
             "policy": rng.choice(["on_t_sample", "on_iteration", "on_interval", "no_sampling"]),
             "interval": gen_q(rng, DIM["time"], us),
-            "seed": rng.randrange(2 ** 32),
+            "seed": rng.choice([0, 0, 1, 2 ** 32 - 1, rng.randrange(2 ** 32), rng.randrange(2 ** 32), rng.randrange(1000)]),
             "mode": rng.choice(["auto", "none", "Poisson", "redist"])}
 
 
@@ -930,6 +930,9 @@ def special_cases(ctx):
               "time_step": {"v": 0.25}, "t_max": "default", "policy": "on_interval", "interval": {"v": 0.5, "sys": ["µm", "h", "molecule"]},
               "seed": 12345, "mode": mode}
         cases.append(("script", sp, ["direct", "json", "file-abs", "file-rel", "reserialise"]))
+    cases.append(("script", {"us": ["µm", "s", "molecule"], "system": _tiny_system(["µm", "s", "molecule"]), "t_sample": {"values": [0.0, 1.0]},
+                             "time_step": {"v": 0.5}, "t_max": "default", "policy": "on_t_sample", "interval": {"v": 1.0}, "seed": 0, "mode": "auto"},
+                  ["direct", "json", "file-abs", "reserialise"]))
     # graph whose edges / nodes have their own units systems
     g = {"type": "graph", "us": ["µm", "s", "molecule"],
          "nodes": [{"us": ["mm", "s", "molecule"], "volume": {"v": 2.0}, "env": 0}, {"us": ["µm", "s", "molecule"], "volume": {"v": 3.0, "sys": ["nm", "s", "mol"]}, "env": 0}],
@@ -1047,6 +1050,9 @@ def minimal_dict_checks(ctx):
 # replay
 # =============================================================================================
 def replay(ctx, rec):
+    if rec.get("kind") == "no-failing-input-found" or "case" not in rec:
+        return True, {"note": "this replay file names broken obligations only (no failing input was found); nothing to re-run on the code",
+                      "broken": [b.get("name") for b in rec.get("broken", [])]}
     case = rec.get("case", rec)
     out = {"case": {k: v for k, v in case.items() if k != "spec"}}
     if case.get("kind") == "minimal" or case.get("kind") == "doc-alias":
